@@ -353,6 +353,9 @@ type runner struct {
 	caPath  map[string]string // "1","2" -> CA certificate file
 	caSubj  map[string]string
 	cc      *clientCerts
+
+	unrepMu sync.Mutex
+	unrep   []interface{}
 }
 
 type liveSet struct {
@@ -772,6 +775,16 @@ type witness struct {
 	Note       interface{} `json:"note,omitempty"`
 }
 
+// noteUnreproduced keeps suspected violations that a repetition cleared.
+func (r *runner) noteUnreproduced(ls *liveSet, sni string, of offer, keys []string) {
+	r.unrepMu.Lock()
+	defer r.unrepMu.Unlock()
+	if len(r.unrep) < 10 {
+		r.unrep = append(r.unrep, map[string]interface{}{"keys": keys, "sites": ls.set.Sites, "sni": sni, "offer": of})
+		r.c.Set("suspects_not_reproduced_samples", r.unrep)
+	}
+}
+
 func scrubCAs(r hsResult) hsResult {
 	for i, s := range r.CAs {
 		r.CAs[i] = fmt.Sprintf("%q", s)
@@ -798,27 +811,40 @@ func (r *runner) probe(ls *liveSet, sni string, of offer) {
 		}
 		return ""
 	}
+	// Attempts with transport trouble decide nothing and are repeated (at
+	// most 3 of them); a suspected violation must repeat on 3 decided
+	// attempts; one clean decided attempt clears the probe.
 	var key string
-	n := 0
-	for n < attempts {
+	var suspects []string
+	n, unsureN := 0, 0
+	for len(suspects) < attempts && unsureN < attempts {
 		n++
 		out = r.probeOnce(ls, sni, of)
-		k := keyOf(out)
-		unsure := out.V1.Unsure || out.V2.Unsure
-		if n == 1 {
-			key = k
+		if out.V1.Unsure || out.V2.Unsure {
+			unsureN++
+			c.Count("probe_retries_transport", 1)
+			if debug {
+				fmt.Printf("transport retry: set=%d sni=%q offer=%s c1=%q c2=%q\n", ls.set.idx, sni, lib.JSON(of), out.R1.Err, out.R2.Err)
+			}
+			continue
 		}
-		if k == "" && !unsure {
-			key = ""
+		k := keyOf(out)
+		if k == "" {
+			if len(suspects) > 0 {
+				c.Count("suspects_not_reproduced", 1)
+				r.noteUnreproduced(ls, sni, of, suspects)
+			}
+			suspects = nil
 			break
 		}
-		if k != key {
-			key = "" // not reproducible
-			if !unsure {
-				break
-			}
+		suspects = append(suspects, k)
+		if len(suspects) < attempts {
+			c.Count("probe_retries_suspect", 1)
 		}
-		c.Count("probe_retries", 1)
+	}
+	undecided := unsureN >= attempts
+	if len(suspects) == attempts {
+		key = suspects[0]
 	}
 	stage := out.V1.Stage
 	c.Count("stage_"+stage, 1)
@@ -828,7 +854,7 @@ func (r *runner) probe(ls *liveSet, sni string, of offer) {
 		c.Nontrivial(fmt.Sprintf("%s|%s|%s|%d-%d-%s-%s", ls.set.signature(), stage, strings.ToLower(sni), of.VMin, of.VMax, of.Ciphers, of.Cert))
 	}
 	if key == "" {
-		if (out.V1.Unsure || out.V2.Unsure) && n == attempts {
+		if undecided {
 			c.Inconclusive(fmt.Sprintf("set %d sni %q offer %s: transport trouble on every attempt (%s / %s)", ls.set.idx, sni, lib.JSON(of), out.R1.Err, out.R2.Err))
 		}
 		if len(out.V1.Cands) > 0 && !out.R1.OK && !out.R1.Unsure {
